@@ -23,7 +23,7 @@
    No well-formedness condition on the configuration is needed for C08. *)
 From Coq Require Import List ZArith NArith Bool.
 From PC.Base Require Import Assoc.
-From PC.Sup Require Import Model Monitors Sim RelCore Agreement RelC08 RelC08b RelC08c SpecC08 CallC08 ExC08.
+From PC.Sup Require Import Model Monitors Sim RelCore Agreement RelC08 RelC08b RelC08c SpecC08 CallC08 RegC08 ExC08.
 Import ListNotations.
 
 (* Every history of the model that did not go through the dup or the zombie window satisfies the
@@ -143,6 +143,88 @@ Theorem C08_create_in_call : forall cs ord evs s, accept (init cs ord) evs = Som
   create_ok (get th (cv_of pre)) n = true.
 Proof. exact C08_create_in_call_lemma. Qed.
 Print Assumptions C08_create_in_call.
+
+(* ---- the same clauses in terms of the REGISTRY as the history shows it (Sup/RegC08.v) --------------------
+   rv_of pre is a view of the history prefix pre:
+     rv_reg   the registry "process name -> registered instance": ERegAdd i n registers i under n,
+              ERegDel i removes the entry of i's name (i's name is the n of its NewProcess(i, n));
+     rv_call  thread -> record of the call it executes: operation, the lookup (name, result) on which the
+              call's "is it running?" check was decided, number of stops requested.
+   "Active" in the property text = registered (the running-processes map is what the code checks).
+   The call's lookup is the trace point ERegGet n r of the call's own thread; its position is given
+   explicitly (pre = pre0 ++ (th, ERegGet n r) :: mid), so "at the time of its check" is the state after pre0.
+   Other threads may change the registry between that lookup and the creation: that is the dup window of
+   C08_main, not a defect of these statements. *)
+
+(* every registry lookup returns what is registered at that moment *)
+Theorem C08_lookup_truthful : forall cs ord evs s, accept (init cs ord) evs = Some s ->
+  forall pre th n r post, evs = pre ++ (th, ERegGet n r) :: post -> r = get n (rv_reg (rv_of pre)).
+Proof. exact C08_lookup_truthful_lemma. Qed.
+Print Assumptions C08_lookup_truthful.
+
+(* only configured names are ever registered *)
+Theorem C08_registered_known : forall cs ord evs s, accept (init cs ord) evs = Some s ->
+  forall pre post, evs = pre ++ post -> forall n i, get n (rv_reg (rv_of pre)) = Some i -> has n cs = true.
+Proof. exact C08_registered_known_lemma. Qed.
+Print Assumptions C08_registered_known.
+
+(* "A start request launches a new instance iff none is active and otherwise fails without side effects;
+   requests naming unknown processes fail and change nothing":
+   a returning StartProcess(n) has looked n up in the registry (r = what was registered under n then); it
+   succeeds iff nothing was registered and n is configured, and then it has spawned exactly one instance;
+   otherwise it has created no instance; it never requests a stop. *)
+Theorem C08_start_iff_none_registered : forall cs ord evs s, accept (init cs ord) evs = Some s ->
+  forall pre th ok post, evs = pre ++ (th, EApiReturn ok) :: post ->
+  forall c n, get th (cv_of pre) = Some c -> c_op c = OpStart n ->
+  exists pre0 mid r,
+    pre = pre0 ++ (th, ERegGet n r) :: mid /\ r = get n (rv_reg (rv_of pre0)) /\
+    (ok = true <-> r = None /\ has n cs = true) /\
+    c_spawned c = (if ok then 1%nat else 0%nat) /\ (ok = false -> c_created c = 0%nat) /\ c_stops c = 0%nat.
+Proof. exact C08_start_registered_lemma. Qed.
+Print Assumptions C08_start_iff_none_registered.
+
+(* StopProcess(n) succeeds iff an instance was registered under n when it looked; it creates nothing;
+   a failing stop (in particular: of an unknown name, C08_registered_known) has requested no stop *)
+Theorem C08_stop_iff_registered : forall cs ord evs s, accept (init cs ord) evs = Some s ->
+  forall pre th ok post, evs = pre ++ (th, EApiReturn ok) :: post ->
+  forall c n, get th (cv_of pre) = Some c -> c_op c = OpStop n ->
+  exists pre0 mid r,
+    pre = pre0 ++ (th, ERegGet n r) :: mid /\ r = get n (rv_reg (rv_of pre0)) /\
+    (ok = true <-> r <> None) /\
+    c_spawned c = 0%nat /\ c_created c = 0%nat /\ (ok = false -> c_stops c = 0%nat).
+Proof. exact C08_stop_registered_lemma. Qed.
+Print Assumptions C08_stop_iff_registered.
+
+(* RestartProcess(n) succeeds iff n is configured and has then spawned exactly one new instance; for an
+   unknown name it fails, has created nothing, and found nothing registered (so it stopped nothing) *)
+Theorem C08_restart_registered : forall cs ord evs s, accept (init cs ord) evs = Some s ->
+  forall pre th ok post, evs = pre ++ (th, EApiReturn ok) :: post ->
+  forall c n, get th (cv_of pre) = Some c -> c_op c = OpRestart n ->
+  exists pre0 mid r,
+    pre = pre0 ++ (th, ERegGet n r) :: mid /\ r = get n (rv_reg (rv_of pre0)) /\
+    ok = has n cs /\ c_spawned c = (if ok then 1%nat else 0%nat) /\ (ok = false -> c_created c = 0%nat /\ r = None).
+Proof. exact C08_restart_registered_lemma. Qed.
+Print Assumptions C08_restart_registered.
+
+(* which instance a call stops: a stop request (ENoRestart i) is made only inside StopProcess(n) or
+   RestartProcess(n), and exactly for the instance i that was registered under n when the call looked it up *)
+Theorem C08_stop_target : forall cs ord evs s, accept (init cs ord) evs = Some s ->
+  forall pre th i post, evs = pre ++ (th, ENoRestart i) :: post ->
+  exists k n pre0 mid,
+    get th (rv_call (rv_of pre)) = Some k /\ (k_op k = OpStop n \/ k_op k = OpRestart n) /\
+    pre = pre0 ++ (th, ERegGet n (Some i)) :: mid /\ get n (rv_reg (rv_of pre0)) = Some i.
+Proof. exact C08_stop_target_lemma. Qed.
+Print Assumptions C08_stop_target.
+
+(* the six calls of ex_seq: call record, result, registry at the return *)
+Example C08_registry_example : ret_lookups rv0 ex_seq =
+  [(11%N, Some (mkK (OpStart 1) (Some (1%N, Some 100%N)) 0), false, [(1%N, 100%N)]);
+   (12%N, Some (mkK (OpStop 1) (Some (1%N, Some 100%N)) 1), true, [(1%N, 100%N)]);
+   (1%N,  Some (mkK OpRun None 0), true, []);
+   (13%N, Some (mkK (OpStart 1) (Some (1%N, None)) 0), true, [(1%N, 101%N)]);
+   (14%N, Some (mkK (OpRestart 1) (Some (1%N, Some 101%N)) 1), true, [(1%N, 102%N)]);
+   (15%N, Some (mkK (OpStop 9) (Some (9%N, None)) 0), false, [(1%N, 102%N)])].
+Proof. exact ex_seq_lookups. Qed.
 
 (* non-vacuity of the call theorems: the six calls of the 92-event history ex_seq and their views *)
 Example C08_calls_example : ret_views [] ex_seq =
